@@ -1,6 +1,6 @@
 (* C01 - A successful dump is a structurally sound minidump.  Property theorems only. *)
 From Coq Require Import List NArith Arith.
-From MDW Require Import Bytes MemWriter Writer MiniDump MiniDumpProofs SoundAbs GenTypes Generated PlanProofs.
+From MDW Require Import Bytes MemWriter Writer MiniDump MiniDumpProofs SoundAbs SoundBridge GenTypes Generated PlanProofs.
 Import ListNotations.
 
 (* (1) The builder model: the reduced whole dump (header slot, thread list with stacks, contexts and
@@ -18,6 +18,16 @@ Theorem C01_tiled_disjoint : forall objs e, tiled objs e ->
   o_rva oj + o_len oj <= o_rva oi.
 Proof. exact tiled_disjoint. Qed.
 Print Assumptions C01_tiled_disjoint.
+
+(* (1b) The bridge between the two: the object map of any state satisfying the builder invariant, read as the object
+   list of an abstract image of the buffer's length (whatever kinds are assigned), passes the object half of the
+   executable predicate - every object inside the image, no two overlapping. *)
+Theorem C01_invariant_implies_predicate : forall kind_of s,
+  Inv s ->
+  forallb (inside (N.of_nat (length (w_buf s)))) (map (to_sobj kind_of) (w_objs s)) = true /\
+  pairwise (map (to_sobj kind_of) (w_objs s)) = true.
+Proof. exact inv_objects_sound. Qed.
+Print Assumptions C01_invariant_implies_predicate.
 
 (* (2) What the executable predicate applied to every real image means: every object any stored offset
    designates lies wholly inside the image, and two objects never overlap except the two intended
